@@ -50,6 +50,12 @@ CLAIMED = {
     note="A-LEX (a quoted string lies within one token) is false for shlex in known cases: findings D19, D27, D28 are reported by the bounded stand-in (exhaustive small token sequences x widths x levels on both real wrap_line functions, ast.parse comparison) and listed in known_findings.json by fingerprint.",
     technique="contract-based deductive verification: ast->z3 VC generation with linear integer length reasoning and ghost token ranges; z3 strings for the pad functions",
     ref="6/C20"),
+
+ "C13": dict(cat="proof",
+    text="The sanitiser is proved over code-point arrays (any name) to produce a non-empty [A-Za-z0-9_]* string not starting with '_'; KeyToUniqueNameMap.get_or_make_name_for_key is proved to keep injectivity, return the stored identifier on every later lookup and touch no other key (relative to A-UNG); is_state_variable is proved to be exactly the tag-prefix predicate and both __getitem__ methods to route persistent names to instance/state storage and others to locals; name-space prefixes are proved pairwise disjoint (z3 strings) and disjoint from the identifiers the Python templates use (collected mechanically).",
+    note="Relative to pytools.UniqueNameGenerator (A-UNG). Fortran case-insensitive distinctness, the 63-character limit, and legality of untagged function ids are NOT satisfied by the code: known findings D15, D16, D29, D30 (bounded stand-in: lookup sequences on the real managers, exhaustive short names + adversarial names).",
+    technique="contract-based deductive verification: ast->z3 VC generation over code-point arrays, map representation invariant, z3 string prefix lemmas",
+    ref="6/C13"),
 }
 
 NOT_APPLICABLE = {
